@@ -20,7 +20,7 @@ macro "skel_simp" : tactic =>
   `(tactic| simp [upd, opsRule, opsWord, bind, Except.bind, *])
 
 /-- operands of an instruction with no constant operand -/
-def ops (rules : List (Nat × ρ)) (words : List (Nat × Nat)) : Operands ρ := ⟨opsRule rules, opsWord words, fun _ => .nil⟩
+def ops (rules : List (Nat × ρ)) (words : List (Nat × Nat)) : Operands ρ := ⟨opsRule rules, opsWord words, fun _ => .nil, fun _ => []⟩
 
 theorem rule_if (E : Env) (k : OK ρ) (n : Nat) (a b : ρ) (s : St) (pos : Nat) :
     run E k (ops [(1, a), (2, b)] []) Gen.PegSkel.RULE_IF s pos = Op.step E k n (.if_ a b) s pos := by
@@ -117,7 +117,7 @@ theorem rule_position (E : Env) (k : OK ρ) (n : Nat) (tag : Nat) (s : St) (pos 
   skel_simp
 
 theorem rule_constant (E : Env) (k : OK ρ) (n : Nat) (v : Val) (tag : Nat) (s : St) (pos : Nat) :
-    run E k ⟨opsRule [], opsWord [(2, tag)], fun _ => v⟩ Gen.PegSkel.RULE_CONSTANT s pos = Op.step E k n (.constant v tag) s pos := by
+    run E k ⟨opsRule [], opsWord [(2, tag)], fun _ => v, fun _ => []⟩ Gen.PegSkel.RULE_CONSTANT s pos = Op.step E k n (.constant v tag) s pos := by
   skel_unfold Gen.PegSkel.RULE_CONSTANT
   skel_simp
 
@@ -337,7 +337,7 @@ theorem to_loop (k : OK ρ) (hk : KeepsWindow k) (r : ρ) (isTo : Bool) (cs : Ca
 
 theorem to_body (E : Env) (k : OK ρ) (r : ρ) (isTo : Bool) (fuel : Nat) :
     ToBody k r isTo (fun L s => execL E k ⟨opsRule [(1, r)], opsWord [(0, if isTo then Gen.Peg.RULE_TO else Gen.Peg.RULE_THRU)],
-      fun _ => .nil⟩ fuel Gen.PegSkel.RULE_TO_body0 L s) := by
+      fun _ => .nil, fun _ => []⟩ fuel Gen.PegSkel.RULE_TO_body0 L s) := by
   intro L s pos hp
   simp only [Gen.PegSkel.RULE_TO_body0, execL, execStmt, evalCond]
   cases hk : k r s pos with
@@ -353,7 +353,7 @@ theorem to_body (E : Env) (k : OK ρ) (r : ρ) (isTo : Bool) (fuel : Nat) :
     `fuel` is the Lean fuel of the IR loop (one unit per iteration and one for the exit test). -/
 theorem rule_to_thru (E : Env) (k : OK ρ) (hk : KeepsWindow k) (n fuel : Nat) (isTo : Bool) (r : ρ) (s : St) (pos : Nat)
     (hf : s.textEnd + 1 - pos + 1 ≤ fuel) :
-    runL E k ⟨opsRule [(1, r)], opsWord [(0, if isTo then Gen.Peg.RULE_TO else Gen.Peg.RULE_THRU)], fun _ => .nil⟩ fuel
+    runL E k ⟨opsRule [(1, r)], opsWord [(0, if isTo then Gen.Peg.RULE_TO else Gen.Peg.RULE_THRU)], fun _ => .nil, fun _ => []⟩ fuel
         Gen.PegSkel.RULE_TO s pos =
       Op.step E k n (if isTo then .to r else .thru r) s pos := by
   have hstep : Op.step E k n (if isTo then Instr.to r else Instr.thru r) s pos =
@@ -368,7 +368,7 @@ theorem rule_to_thru (E : Env) (k : OK ρ) (hk : KeepsWindow k) (n fuel : Nat) (
       unfold down1 at hd; split at hd <;> simp at hd; subst hd; rfl
     simp only [hd, bind, Except.bind]
     rcases to_loop k hk r isTo (capSave s)
-        (fun L s => evalCond E ⟨opsRule [(1, r)], opsWord [(0, if isTo then Gen.Peg.RULE_TO else Gen.Peg.RULE_THRU)], fun _ => .nil⟩ L s (.ptrLeEnd 0)) _
+        (fun L s => evalCond E ⟨opsRule [(1, r)], opsWord [(0, if isTo then Gen.Peg.RULE_TO else Gen.Peg.RULE_THRU)], fun _ => .nil, fun _ => []⟩ L s (.ptrLeEnd 0)) _
         (fun L s pos hp => by simp [evalCond, hp]) (to_body E k r isTo fuel) (s.textEnd + 1 - pos) fuel s0 pos
         { ptr := upd (fun x => if x = 0 then some pos else none) 1 none, cs := upd (fun _ => ⟨0, 0, 0⟩) 0 (capSave s),
           val := fun _ => .nil, num := fun _ => 0, oldmode := false }
@@ -494,7 +494,7 @@ theorem rule_til (E : Env) (k : OK ρ) (hk : KeepsWindow k) (n fuel : Nat) (t r 
 
 /-- operands of a variadic instruction: `rule[1]` = number of alternatives, `rule[2 + j]` = alternative j -/
 def opsList (rs : List ρ) : Operands ρ :=
-  ⟨fun j => if 2 ≤ j then rs[j - 2]? else none, opsWord [(1, rs.length)], fun _ => .nil⟩
+  ⟨fun j => if 2 ≤ j then rs[j - 2]? else none, opsWord [(1, rs.length)], fun _ => .nil, fun _ => []⟩
 
 /-- one iteration of the loop over all alternatives but the last: local number 0 = i, capture state 0 = cs -/
 def ChoiceBody (k : OK ρ) (rs : List ρ) (pos : Nat) (body : Loc → St → Except Err Out) : Prop :=
@@ -825,8 +825,8 @@ theorem rule_lenprefix (E : Env) (hE : E.lenprefixLeak = false) (k : OK ρ) (n f
                 simp only [checkint, decide_eq_true_eq] at hci; omega
               simp only [hidx, hci, Bool.not_true, Bool.false_eq_true, if_false, if_true]
               have key := len_loop k b (capSave s) nrep.toNat (fun L s => decide (L.num 2 < L.num 1))
-                (fun L s => execL E k ⟨opsRule [(1, a), (2, b)], opsWord [], fun _ => .nil⟩ fuel Gen.PegSkel.RULE_LENPREFIX_body0 L s)
-                (fun L s => execL E k ⟨opsRule [(1, a), (2, b)], opsWord [], fun _ => .nil⟩ fuel Gen.PegSkel.RULE_LENPREFIX_rest0 L s)
+                (fun L s => execL E k ⟨opsRule [(1, a), (2, b)], opsWord [], fun _ => .nil, fun _ => []⟩ fuel Gen.PegSkel.RULE_LENPREFIX_body0 L s)
+                (fun L s => execL E k ⟨opsRule [(1, a), (2, b)], opsWord [], fun _ => .nil, fun _ => []⟩ fuel Gen.PegSkel.RULE_LENPREFIX_rest0 L s)
                 (fun _ _ => rfl) (len_body E k a b (capSave s) fuel)
                 (fun L s => by simp [Gen.PegSkel.RULE_LENPREFIX_rest0, execL])
                 nrep.toNat 0 fuel
@@ -1052,7 +1052,7 @@ theorem rule_split (E : Env) (k : OK ρ) (n : Nat) (sep r : ρ) (s : St) (pos : 
 /-! #### RULE_REPLACE / RULE_MATCHTIME (one case in peg.c) -/
 
 /-- operands: rule[1] = sub-rule, rule[2] = constant, rule[3] = tag, rule[0] = opcode -/
-def opsRepl (r : ρ) (v : Val) (tag op : Nat) : Operands ρ := ⟨opsRule [(1, r)], opsWord [(0, op), (3, tag)], fun _ => v⟩
+def opsRepl (r : ρ) (v : Val) (tag op : Nat) : Operands ρ := ⟨opsRule [(1, r)], opsWord [(0, op), (3, tag)], fun _ => v, fun _ => []⟩
 
 theorem down1_depth {s s0 : St} (h : down1 s = .ok s0) : s0.depth + 1 = s.depth := by
   unfold down1 at h
@@ -1154,5 +1154,196 @@ theorem rule_argument (E : Env) (k : OK ρ) (n : Nat) (idx tag : Nat) (s : St) (
   skel_unfold Gen.PegSkel.RULE_ARGUMENT
   simp only [ops]
   skel_simp
+
+/-! #### leaf opcodes that read the text: the byte reads / memcmp are statements of the IR, placed by the translator where C
+    evaluates them, and go through the same guarded accessors (`Env.byte`, `Env.slice`) as the model -/
+
+/-- RULE_LITERAL: `rule[1]` bytes stored from `rule + 2` on; the window test comes before the memcmp -/
+theorem rule_literal (E : Env) (k : OK ρ) (n : Nat) (bytes : List Nat) (s : St) (pos : Nat) :
+    run E k ⟨opsRule [], opsWord [(1, bytes.length)], fun _ => .nil, fun b => if b = 2 then bytes else []⟩ Gen.PegSkel.RULE_LITERAL s pos =
+      Op.step E k n (.literal bytes) s pos := by
+  skel_unfold Gen.PegSkel.RULE_LITERAL
+  simp only [evalWE]
+  by_cases h : pos + bytes.length > s.textEnd
+  · skel_simp
+  · cases hs : E.slice s pos (pos + bytes.length) with
+    | error e => skel_simp
+    | ok t => by_cases ht : t = bytes <;> skel_simp
+
+/-- RULE_RANGE: `lo` / `hi` are bytes 0 and 2 of `rule[1]`; the byte is read only inside the window -/
+theorem rule_range (E : Env) (k : OK ρ) (n : Nat) (w : Nat) (s : St) (pos : Nat) :
+    run E k (ops [] [(1, w)]) Gen.PegSkel.RULE_RANGE s pos = Op.step E k n (.range (w % 256) ((w / 65536) % 256)) s pos := by
+  skel_unfold Gen.PegSkel.RULE_RANGE
+  simp only [ops, evalWE]
+  by_cases h : pos < s.textEnd
+  · cases hb : E.byte s pos with
+    | error e => skel_simp
+    | ok b =>
+      by_cases h1 : b < w % 256
+      · have : ¬ (w % 256 ≤ b) := by omega
+        skel_simp
+      · by_cases h2 : b > w / 65536 % 256
+        · have : ¬ (b ≤ w / 65536 % 256) := by omega
+          have h1' : w % 256 ≤ b := by omega
+          skel_simp
+        · have h1' : w % 256 ≤ b := by omega
+          have h2' : b ≤ w / 65536 % 256 := by omega
+          skel_simp
+  · skel_simp
+
+/-- RULE_SET: 8 words of 32 bits from `rule[1]` on, indexed by the byte read inside the window -/
+theorem rule_set (E : Env) (k : OK ρ) (n : Nat) (bm : List Nat) (s : St) (pos : Nat) :
+    run E k ⟨opsRule [], fun j => bm.getD (j - 1) 0, fun _ => .nil, fun _ => []⟩ Gen.PegSkel.RULE_SET s pos =
+      Op.step E k n (.set bm) s pos := by
+  skel_unfold Gen.PegSkel.RULE_SET
+  simp only [evalWE]
+  by_cases h : pos < s.textEnd
+  · have h' : ¬ pos ≥ s.textEnd := by omega
+    cases hb : E.byte s pos with
+    | error e => skel_simp
+    | ok b =>
+      skel_simp
+      split <;> rfl
+  · have h' : pos ≥ s.textEnd := by omega
+    skel_simp
+
+/-- RULE_LOOK: the SIGNED operand `((int32_t *)rule)[1]` displaces `text`; outside `[text_start, text_end]` fails before the call;
+    the rule returns the ORIGINAL position (the translator tracks `text += off; ...; text -= off` as a pending displacement) -/
+theorem rule_look (E : Env) (k : OK ρ) (n : Nat) (w : Nat) (r : ρ) (s : St) (pos : Nat) :
+    run E k (ops [(2, r)] [(1, w)]) Gen.PegSkel.RULE_LOOK s pos = Op.step E k n (.look (asInt32 w) r) s pos := by
+  skel_unfold Gen.PegSkel.RULE_LOOK
+  simp only [ops, evalRE]
+  by_cases h : (pos : Int) + asInt32 w < 0 ∨ (pos : Int) + asInt32 w > (s.textEnd : Int)
+  · rcases h with h | h <;> skel_simp
+  · have h1 : ¬ ((pos : Int) + asInt32 w < 0) := fun x => h (Or.inl x)
+    have h2 : ¬ ((pos : Int) + asInt32 w > (s.textEnd : Int)) := fun x => h (Or.inr x)
+    cases hd : down1 s with
+    | error e => skel_simp
+    | ok s0 =>
+      cases hk : k r s0 ((pos : Int) + asInt32 w).toNat with
+      | error e => skel_simp
+      | ok x => obtain ⟨res, s1⟩ := x; cases res <;> skel_simp
+
+/-- RULE_CAPTURE_NUM: the matched text must scan as a number in base `rule[2]`; the NUMBER is pushed through pushcap (in
+    accumulate mode its to-string is appended - `Tie.number_capture_not_raw`, hypothesis `numRaw = false`) -/
+theorem rule_capture_num (E : Env) (hE : E.numRaw = false) (k : OK ρ) (n : Nat) (r : ρ) (base tag : Nat) (s : St) (pos : Nat) :
+    run E k (ops [(1, r)] [(2, base), (3, tag)]) Gen.PegSkel.RULE_CAPTURE_NUM s pos = Op.step E k n (.capturenum r base tag) s pos := by
+  skel_unfold Gen.PegSkel.RULE_CAPTURE_NUM
+  simp only [ops]
+  cases hd : down1 s <;> skel_simp
+  rename_i s0
+  cases hk : k r s0 pos <;> skel_simp
+  rename_i x; obtain ⟨res, s1⟩ := x; cases res <;> skel_simp
+  rename_i p
+  cases hs : E.slice (up1 s1) pos p <;> skel_simp
+  rename_i t
+  cases hn : scanNumber t base <;> skel_simp
+
+/-! #### RULE_GETTAG / RULE_BACKMATCH: the descending search of the tag stack -/
+
+def liftRet (r : ORes) : Except Err Out := match r with | .error e => .error e | .ok x => .ok (.ret x)
+
+/-- `for (i = count - 1; i >= 0; i--) if (tags[i] matches) <leave the case>`: the IR's descending loop finds what
+    `reverse.find?` finds (the newest entry with the tag) and leaves the state alone otherwise -/
+theorem down_search (i : Nat) (body : Loc → St → Except Err Out) (s : St) (pos : Nat) (p : Nat × Val → Bool) (hit : Nat × Val → ORes)
+    (hbody : ∀ (L : Loc), L.ptr 0 = some pos → ∀ (j : Nat) (hj : j < s.tagged.length),
+      body { L with num := upd L.num i j } s =
+        if p s.tagged[j] then liftRet (hit s.tagged[j]) else .ok (.cont { L with num := upd L.num i j } s)) :
+    ∀ (j : Nat), j ≤ s.tagged.length → ∀ (L : Loc), L.ptr 0 = some pos →
+      match (s.tagged.take j).reverse.find? p with
+      | some tv => downN i body j L s = liftRet (hit tv)
+      | none => ∃ L', downN i body j L s = .ok (.cont L' s) := by
+  intro j
+  induction j with
+  | zero => intro _ L _; exact ⟨L, by simp [downN]⟩
+  | succ j ih =>
+    intro hj L hL
+    have hj' : j < s.tagged.length := by omega
+    have htake : (s.tagged.take (j + 1)).reverse = s.tagged[j] :: (s.tagged.take j).reverse := by
+      rw [List.take_succ]; simp [List.getElem?_eq_getElem hj']
+    rw [htake, List.find?_cons]
+    have hb := hbody L hL j hj'
+    by_cases hp : p s.tagged[j] = true
+    · simp only [hp, if_true] at hb ⊢
+      simp only [downN, hb, bind, Except.bind, liftRet]
+      cases hit s.tagged[j] <;> rfl
+    · have hp' : p s.tagged[j] = false := by simpa using hp
+      simp only [hp', Bool.false_eq_true, if_false] at hb ⊢
+      have := ih (by omega) { L with num := upd L.num i j } hL
+      simp only [downN, hb, bind, Except.bind]
+      exact this
+
+theorem gettag_body (E : Env) (k : OK ρ) (search tag fuel : Nat) (s : St) (pos : Nat) :
+    ∀ (L : Loc), L.ptr 0 = some pos → ∀ (j : Nat) (hj : j < s.tagged.length),
+      execL E k (ops [] [(1, search), (2, tag)]) fuel Gen.PegSkel.RULE_GETTAG_body0 { L with num := upd L.num 0 j } s =
+        if (fun tv : Nat × Val => tv.1 == search) s.tagged[j] then liftRet ((fun tv => .ok (some pos, pushcap E s tv.2 tag)) s.tagged[j])
+        else .ok (.cont { L with num := upd L.num 0 j } s) := by
+  intro L hL j hj
+  simp only [Gen.PegSkel.RULE_GETTAG_body0, execL, execStmt, evalCond, evalVE, evalWE, ops, liftRet]
+  by_cases h : s.tagged[j].1 = search <;> simp [h, hj, hL, upd, opsWord, bind, Except.bind]
+
+/-- RULE_GETTAG: the NEWEST tagged capture with the tag is pushed again (under `rule[2]`), no entry = no match -/
+theorem rule_gettag (E : Env) (k : OK ρ) (n fuel : Nat) (search tag : Nat) (s : St) (pos : Nat) :
+    runL E k (ops [] [(1, search), (2, tag)]) fuel Gen.PegSkel.RULE_GETTAG s pos = Op.step E k n (.gettag search tag) s pos := by
+  simp only [runL, Gen.PegSkel.RULE_GETTAG, execL, evalNE, Op.step, findTag]
+  have key := down_search 0 _ s pos (fun tv => tv.1 == search) (fun tv => .ok (some pos, pushcap E s tv.2 tag))
+    (gettag_body E k search tag fuel s pos) s.tagged.length (Nat.le_refl _) (Loc.init pos) (by simp [Loc.init])
+  rw [List.take_length] at key
+  cases hf : s.tagged.reverse.find? (fun tv => tv.1 == search) with
+  | some tv => simp only [hf] at key; simp [key, liftRet, bind, Except.bind]
+  | none =>
+    simp only [hf] at key; obtain ⟨L', hL'⟩ := key
+    simp [hL', Gen.PegSkel.RULE_GETTAG_rest0, execL, bind, Except.bind]
+
+/-- what RULE_BACKMATCH does with the newest capture carrying the tag -/
+def backmatchHit (E : Env) (s : St) (pos : Nat) (tv : Nat × Val) : ORes :=
+  match tv.2 with
+  | .str bytes =>
+    if pos + bytes.length > s.textEnd then .ok (none, s)
+    else do
+      let t ← E.slice s pos (pos + bytes.length)
+      .ok (if t == bytes then some (pos + bytes.length) else none, s)
+  | _ => .ok (none, s)
+
+theorem backmatch_body (E : Env) (k : OK ρ) (search fuel : Nat) (s : St) (pos : Nat) :
+    ∀ (L : Loc), L.ptr 0 = some pos → ∀ (j : Nat) (hj : j < s.tagged.length),
+      execL E k (ops [] [(1, search)]) fuel Gen.PegSkel.RULE_BACKMATCH_body0 { L with num := upd L.num 0 j } s =
+        if (fun tv : Nat × Val => tv.1 == search) s.tagged[j] then liftRet (backmatchHit E s pos s.tagged[j])
+        else .ok (.cont { L with num := upd L.num 0 j } s) := by
+  intro L hL j hj
+  simp only [Gen.PegSkel.RULE_BACKMATCH_body0, execL, execStmt, evalCond, evalVE, evalNE, evalWE, ops, liftRet, backmatchHit]
+  by_cases h : s.tagged[j].1 = search
+  · cases hv : s.tagged[j].2 with
+    | str bytes =>
+      by_cases hw : pos + bytes.length > s.textEnd
+      · simp [h, hj, hL, hv, hw, upd, opsWord, bind, Except.bind]
+      · cases hs : E.slice s pos (pos + bytes.length) with
+        | error e => simp [h, hj, hL, hv, hw, hs, upd, opsWord, bind, Except.bind]
+        | ok t => by_cases ht : t = bytes <;> simp [h, hj, hL, hv, hw, hs, ht, upd, opsWord, bind, Except.bind]
+    | _ => simp [h, hj, hL, hv, upd, opsWord, bind, Except.bind]
+  · simp [h, hj, hL, upd, opsWord, bind, Except.bind]
+
+/-- RULE_BACKMATCH: the newest capture with the tag must be a STRING, fit into the current window and be what the text has there -/
+theorem rule_backmatch (E : Env) (k : OK ρ) (n fuel : Nat) (search : Nat) (s : St) (pos : Nat) :
+    runL E k (ops [] [(1, search)]) fuel Gen.PegSkel.RULE_BACKMATCH s pos = Op.step E k n (.backmatch search) s pos := by
+  have hstep : Op.step E k n (.backmatch search) s pos =
+      (match s.tagged.reverse.find? (fun tv => tv.1 == search) with | some tv => backmatchHit E s pos tv | none => .ok (none, s)) := by
+    simp only [Op.step, findTag, backmatchHit]
+    cases s.tagged.reverse.find? (fun tv => tv.1 == search) with
+    | none => rfl
+    | some tv => obtain ⟨t, v⟩ := tv; cases v <;> rfl
+  rw [hstep]
+  simp only [runL, Gen.PegSkel.RULE_BACKMATCH, execL, evalNE]
+  have key := down_search 0 _ s pos (fun tv => tv.1 == search) (backmatchHit E s pos)
+    (backmatch_body E k search fuel s pos) s.tagged.length (Nat.le_refl _) (Loc.init pos) (by simp [Loc.init])
+  rw [List.take_length] at key
+  cases hf : s.tagged.reverse.find? (fun tv => tv.1 == search) with
+  | some tv =>
+    simp only [hf] at key
+    simp only [key, liftRet, bind, Except.bind]
+    cases backmatchHit E s pos tv <;> rfl
+  | none =>
+    simp only [hf] at key; obtain ⟨L', hL'⟩ := key
+    simp [hL', Gen.PegSkel.RULE_BACKMATCH_rest0, execL, bind, Except.bind]
 
 end JanetModel.Peg.TieSkel
